@@ -56,7 +56,7 @@ def frames(lvals, rvals, pres, pad=0):
     R = pd.DataFrame({'q': pd.Series(['w%d' % i for i in range(m)], dtype=object),
                       'rk': [10 + i for i in range(m)], 's': pd.Series(rv, dtype=object)})
     if pres.index == 'dup':
-        L.index = [i % 2 for i in range(n)]       # repeated row labels (as after pd.concat)
+        L.index = [i % 2 for i in range(n)]       # repeated row labels 0,1,0,... (as after pd.concat)
         R.index = [5] * m
     elif pres.index != 'range':
         L.index = ['i%d' % i for i in range(n)]
@@ -215,6 +215,11 @@ def layers(tier):
                          'pres': pres, 'ids': ['gap', 'perm'] if lv[0] == 'a b' else ['gap']})
     for c in chunks(seqs_of(2, 2), 8):      # duplicate index labels on the candidate set, whatever the seed
         jobs.append({'L': T22[1][0], 'R': T22[1][1], 'seqs': c, 'mode': 'ops', 'sims': ['jaccard-method', 'levenshtein-raw'],
+                     'pres': 3})
+    S3 = seqs_of(3, 2, maxlen=2, repeats=False) + [[(i, j) for i in range(3) for j in range(2)],
+                                                   [(i, j) for j in range(2) for i in (2, 0, 1)]]
+    for c in chunks(S3, 8):                 # three left rows labelled 0,1,0: cached and uncached token paths
+        jobs.append({'L': T32[0][0], 'R': T32[0][1], 'seqs': c, 'mode': 'ops', 'sims': ['jaccard-method', 'count-ws-bag'],
                      'pres': 3})
     for (lv, rv) in T32:
         S = seqs_of(3, 2, maxlen=3 if quick else None, repeats=False)
